@@ -8,6 +8,7 @@ specification: Spec/Bmp.lean (standard BMP reader, meaning of PDF samples).
 import PdfVerif.Lemmas.Bmp
 import PdfVerif.Lemmas.ImageName
 import PdfVerif.Lemmas.Inline
+import PdfVerif.Lemmas.InlineTotal
 import PdfVerif.Lemmas.InlineDict
 
 namespace PdfVerif.Props.C18
@@ -352,6 +353,116 @@ example : (match processID (writerObjs ⟨false, true, true, false, true⟩ .gra
     | .ok p => some (p.data, p.pushEI, p.consumed, inlineSize p.dict)
     | .error _ => none) = some ([65, 13], true, 6, some 2) := by
   decide +kernel
+
+/-! ## Round 6 — the end-marker scan on every byte string -/
+
+/-- **inline_scan_total.** The exact rule, for EVERY input (payloads that contain `EI` bytes included) and every
+    size hint: when `get_inline_data` returns `(d, n)` it has consumed `n ≤ |input|` bytes; these are `body E I ws`
+    with `ws` a white-space byte — or the whole input `body E I` when the marker is the last token —, the result is
+    what `finish` makes of `body` (cut at the hinted size when exactly one end-of-line follows it, else strip one
+    end-of-line), and the data is a prefix of `body`: nothing is ever invented, and `input.drop n` — the operators
+    after the image — is left for the parser untouched. -/
+theorem C18_inline_scan_total (L : Option Nat) (input d : Bytes) (n : Nat)
+    (h : getInlineDataLen EI L input = some (d, n)) :
+    n ≤ input.length ∧ ∃ body,
+      ((∃ ws, isSpace ws = true ∧ input.take n = body ++ [69, 73, ws]) ∨ (n = input.length ∧ input = body ++ [69, 73])) ∧
+      finish L body n = some (d, n) ∧ d <+: body := by
+  unfold getInlineDataLen at h
+  cases hs : scan EI 0 input 0 with
+  | none => simp [hs] at h
+  | some r =>
+    obtain ⟨m, eof⟩ := r
+    obtain ⟨k, hk1, hk2, hk3, hk4⟩ := scan_sound input 0 [] 0 m eof (by decide)
+      ⟨fun h => absurd h (by decide), fun h => absurd h (by decide)⟩ hs
+    simp only [Nat.zero_add] at hk1
+    subst hk1
+    simp only [hs, EI_length] at h
+    cases eof with
+    | false =>
+      obtain ⟨pre, ws, hws, hpre⟩ := hk3 rfl
+      simp only [List.nil_append] at hpre
+      have hbody : (input.take m).take ((input.take m).length - (2 + 1)) = pre := by
+        rw [hpre]
+        have : (pre ++ [69, 73, ws]).length - (2 + 1) = pre.length := by simp
+        rw [this, List.take_left]
+      simp only [Bool.false_eq_true, if_false, hbody] at h
+      have hfin : finish L pre m = some (d, n) := by
+        rw [← h]; cases L <;> rfl
+      obtain ⟨hpf, hmn⟩ := finish_prefix L pre d m n hfin
+      subst hmn
+      exact ⟨hk2, pre, Or.inl ⟨ws, hws, hpre⟩, hfin, hpf⟩
+    | true =>
+      obtain ⟨hkl, pre, hpre⟩ := hk4 rfl
+      simp only [List.nil_append] at hpre
+      subst hkl
+      have hbody : (input.take input.length).take ((input.take input.length).length - (2 + 0)) = pre := by
+        rw [List.take_length, hpre]
+        have : (pre ++ [69, 73]).length - (2 + 0) = pre.length := by simp
+        rw [this, List.take_left]
+      simp only [if_true, hbody] at h
+      have hfin : finish L pre input.length = some (d, n) := by
+        rw [← h]; cases L <;> rfl
+      obtain ⟨hpf, hmn⟩ := finish_prefix L pre d _ n hfin
+      subst hmn
+      exact ⟨Nat.le_refl _, pre, Or.inr ⟨rfl, hpre⟩, hfin, hpf⟩
+
+/-- Non-vacuity, with a payload that contains the bytes `EI` (followed by `x`, so no marker) and ends in `E`. -/
+example : getInlineDataLen EI none [1, 69, 73, 120, 69, 10, 69, 73, 32, 81] = some ([1, 69, 73, 120, 69], 9) := by
+  decide +kernel
+
+/-- **inline_scan_ws_rule.** Which `EI` ends the data: for a payload-with-separator `body` that contains no
+    `EI`+white space and whose last byte is neither `E` nor `I` — any separator will do: blank, tab, LF, CR, NUL, or
+    none at all after such a data byte — the scanner stops right after the `EI ws` that follows.  (Generalises
+    `C18_inline_scan` from the three end-of-line forms to every separator.) -/
+theorem C18_inline_scan_ws_rule (L : Option Nat) (body rest : Bytes) (ws : UInt8) (hws : isSpace ws = true)
+    (hno : NoMarker body) (hlast : ∀ c, body.getLast? = some c → c ≠ 69 ∧ c ≠ 73) :
+    getInlineDataLen EI L (body ++ EI ++ ws :: rest) = finish L body (body.length + 3) := by
+  have hp := scan_prefix body 0 [] (EI ++ ws :: rest) 0 (by decide)
+    ⟨fun h => absurd h (by decide), fun h => absurd h (by decide)⟩ (by simpa using hno)
+  obtain ⟨hscan, _, _⟩ := hp
+  have hzero := run_zero_of_last body hno hlast
+  unfold getInlineDataLen
+  have hinput : body ++ EI ++ ws :: rest = body ++ (EI ++ ws :: rest) := by simp
+  rw [hinput, hscan, hzero]
+  have : EI ++ ws :: rest = 69 :: 73 :: ws :: rest := rfl
+  rw [this, scan_marker ws rest _ hws]
+  simp only [Nat.zero_add, EI_length, Bool.false_eq_true, if_false]
+  have htake : List.take (body.length + 3) (body ++ 69 :: 73 :: ws :: rest) = body ++ [69, 73, ws] := by
+    have : body ++ 69 :: 73 :: ws :: rest = (body ++ [69, 73, ws]) ++ rest := by simp
+    rw [this]
+    have hl : body.length + 3 = (body ++ [69, 73, ws]).length := by simp
+    rw [hl, List.take_left]
+  rw [htake]
+  have : (body ++ [69, 73, ws]).length - (2 + 1) = body.length := by simp
+  rw [this, List.take_left]
+  cases L <;> rfl
+
+example : getInlineDataLen EI none ([7, 8, 32] ++ EI ++ 9 :: [81]) = some ([7, 8, 32], 6) := by decide +kernel
+
+/-- **inline_scan_pseof.** Input without `EI`+white space that does not end in `EI` either: PSEOF (the image is
+    dropped by the caller), for every size hint. -/
+theorem C18_inline_scan_pseof (L : Option Nat) (input : Bytes) (hno : NoMarker input)
+    (hend : ¬ ∃ pre, input = pre ++ [69, 73]) : getInlineDataLen EI L input = none := by
+  have hp := scan_prefix input 0 [] [] 0 (by decide)
+    ⟨fun h => absurd h (by decide), fun h => absurd h (by decide)⟩ (by simpa using hno)
+  obtain ⟨hscan, hinv, _⟩ := hp
+  unfold getInlineDataLen
+  simp only [List.append_nil] at hscan
+  rw [hscan]
+  have : scan EI (run 0 input) [] (0 + input.length) = none := by
+    simp only [scan]
+    rw [if_neg]
+    intro h2
+    exact hend (by simpa using hinv.1 h2)
+  rw [this]
+
+example : getInlineDataLen EI (some 2) [1, 2, 10, 69, 73] ≠ none ∧ getInlineDataLen EI (some 2) [1, 2, 10, 69] = none := by
+  decide +kernel
+
+/-- The limit of the rule (why `hlast` is there): the automaton does not restart on `E`, so an `E` directly in
+    front of `EI` hides the marker — `E E I ␣` is scanned to the end without a match. -/
+theorem C18_inline_scan_norestart_cex : getInlineDataLen EI none [69, 69, 73, 32] = none ∧
+    getInlineDataLen EI none [69, 10, 69, 73, 32] = some ([69], 5) := by decide +kernel
 
 /-! ## Round 6 — the branch selection of `export_image` as a decision table -/
 
